@@ -678,7 +678,8 @@ func DecryptFragment(frag *Fragment, di DecryptInfo, key []byte) error {
 			}
 
 			tenc := ti.Sinf.Schi.Tenc
-			samples, err := frag.GetFullSamples(ti.Trex)
+			// The samples of this traf: a moof may hold several trafs of the same track
+			samples, err := frag.getFullSamplesOfTraf(traf, ti.Trex)
 			if err != nil {
 				return err
 			}
